@@ -99,6 +99,12 @@ func sameModuloIndex(a, b ssa.Value, pi, pj *ssa.Parameter, depth int) bool {
 	case *ssa.Const:
 		y, ok := b.(*ssa.Const)
 		return ok && x.Value == y.Value
+	case *ssa.Parameter:
+		// an index parameter on one side stands against the *other* index parameter on the other side (matched above):
+		// `x[i] < x[i]` orders nothing
+		if x == pi || x == pj || b == ssa.Value(pi) || b == ssa.Value(pj) {
+			return false
+		}
 	}
 	return a == b
 }
